@@ -1559,13 +1559,16 @@ func main() {
 	var b strings.Builder
 	b.WriteString("(* GENERATED by /verif/translator from the Go sources; do not edit. *)\n")
 	b.WriteString("From Coq Require Import String List ZArith.\nFrom VF Require Import Locks.Checker.\nImport ListNotations.\nOpen Scope string_scope.\n\n")
-	b.WriteString("Definition prog : program := [\n")
+	for i, fi := range emitted {
+		fmt.Fprintf(&b, "(* %s:%d  %s *)\nDefinition body_%d : stmt :=\n  %s.\n", fi.file, fi.line, fi.key, i, fi.tree.coq())
+	}
+	b.WriteString("\nDefinition prog : program := [\n")
 	for i, fi := range emitted {
 		sep := ";"
 		if i == len(emitted)-1 {
 			sep = ""
 		}
-		fmt.Fprintf(&b, "  (* %s:%d *)\n  (%s, (%s, %s))%s\n", fi.file, fi.line, q(fi.key), fi.tree.coq(), summaryCoq(fi), sep)
+		fmt.Fprintf(&b, "  (%s, (body_%d, %s))%s\n", q(fi.key), i, summaryCoq(fi), sep)
 	}
 	b.WriteString("].\n\n")
 	var eps []string
